@@ -8,6 +8,7 @@ import (
 	"runtime"
 	"sort"
 	"strings"
+	"time"
 
 	cluster "github.com/envoyproxy/go-control-plane/envoy/config/cluster/v3"
 	endpoint "github.com/envoyproxy/go-control-plane/envoy/config/endpoint/v3"
@@ -143,13 +144,16 @@ func generate(objs []*object, specs []proxySpec) (snaps []*snapshot, envCrash []
 	if !guarded("env", &envCrash, func() { cg = core.NewConfigGenTest(ct, opts) }) {
 		return nil, envCrash
 	}
+	// one real XDS cache per environment, shared by its proxies as in istiod (EDS answers are served
+	// from it; the config generator of the test helper itself runs without cache)
+	cache := model.NewXdsCache()
 	for _, ps := range specs {
-		snaps = append(snaps, snapshotFor(cg, ps))
+		snaps = append(snaps, snapshotFor(cg, ps, cache))
 	}
 	return snaps, nil
 }
 
-func snapshotFor(cg *core.ConfigGenTest, ps proxySpec) *snapshot {
+func snapshotFor(cg *core.ConfigGenTest, ps proxySpec, cache model.XdsCache) *snapshot {
 	s := &snapshot{Proxy: ps.Name, Stage: map[string]bool{}}
 	node := &model.Proxy{
 		Type: ps.Type, ID: ps.Name + "." + ps.NS, ConfigNamespace: ps.NS, IPAddresses: append([]string{}, ps.IPs...),
@@ -163,7 +167,8 @@ func snapshotFor(cg *core.ConfigGenTest, ps proxySpec) *snapshot {
 		return s
 	}
 	push := cg.PushContext()
-	req := &model.PushRequest{Forced: true, Push: push, Reason: model.NewReasonStats(model.ProxyRequest)}
+	// Start is the cache token of what is generated (a zero Start disables caching); a constant, not the clock
+	req := &model.PushRequest{Forced: true, Push: push, Reason: model.NewReasonStats(model.ProxyRequest), Start: t0.Add(time.Hour)}
 	decode := func(rtype string, rs model.Resources, mk func() proto.Message, keep func(proto.Message)) {
 		for _, r := range rs {
 			m := mk()
@@ -212,14 +217,21 @@ func snapshotFor(cg *core.ConfigGenTest, ps proxySpec) *snapshot {
 				return
 			}
 			w := &model.WatchedResource{TypeUrl: v3.EndpointType, ResourceNames: sets.New(s.EDSRequested...)}
-			gen := &xds.EdsGenerator{Cache: &model.DisabledCache{}, EndpointIndex: cg.Env().EndpointIndex}
-			rs, _, err := gen.Generate(node, w, req)
-			if err != nil {
-				panic(infraPanic("EDS generator error: " + err.Error()))
+			// all names in one request, twice: the first answer fills the cache where it is cold, the
+			// second is served from it
+			gen := &xds.EdsGenerator{Cache: cache, EndpointIndex: cg.Env().EndpointIndex}
+			for round, into := range []*[]*endpoint.ClusterLoadAssignment{&s.Endpoints, &s.EndpointsWarm} {
+				rs, _, err := gen.Generate(node, w, req)
+				if err != nil {
+					panic(infraPanic("EDS generator error: " + err.Error()))
+				}
+				for _, r := range rs {
+					s.EDSResourceNames[round] = append(s.EDSResourceNames[round], r.GetName())
+				}
+				decode("EDS", rs, func() proto.Message { return &endpoint.ClusterLoadAssignment{} }, func(m proto.Message) {
+					*into = append(*into, m.(*endpoint.ClusterLoadAssignment))
+				})
 			}
-			decode("EDS", rs, func() proto.Message { return &endpoint.ClusterLoadAssignment{} }, func(m proto.Message) {
-				s.Endpoints = append(s.Endpoints, m.(*endpoint.ClusterLoadAssignment))
-			})
 		})
 	}
 	return s
@@ -258,6 +270,11 @@ func (s *snapshot) digest() string {
 		ms = append(ms, e)
 	}
 	addAll("E", ms)
+	ms = nil
+	for _, e := range s.EndpointsWarm {
+		ms = append(ms, e)
+	}
+	addAll("Ew", ms)
 	for _, c := range s.Crashes {
 		parts = append(parts, c.sig())
 	}
